@@ -175,7 +175,34 @@ def build_for(ctx, prop):
     n_pa = len(re.findall(r"^\s*Print Assumptions\s+\w+", src, flags=re.M))
     if n_pa < len(theorems):
         res["discharged"] = min(res["discharged"], n_pa)
+    if ctx.tier == "thorough" and ok:
+        res["coqchk"] = coqchk(prop)
+        if not res["coqchk"]["ok"]:
+            res["discharged"] = 0
     return res
+
+
+def coqchk(prop):
+    """independent re-check of the compiled property file and everything it depends on (thorough tier only: ~40 s)"""
+    t0 = time.time()
+    with BuildLock():
+        p = subprocess.run(["timeout", "1500", "coqchk", "-silent", "-o", "-Q", "theories", "MdpaxV", "-Q", "gen", "MdpaxGen", f"MdpaxV.Props.{prop}"],
+                           cwd=COQ, capture_output=True, text=True)
+    out = p.stdout + p.stderr
+    summ = out[out.find("CONTEXT SUMMARY"):] if "CONTEXT SUMMARY" in out else out[-1500:]
+
+    def field(name):
+        m = re.search(r"\* " + re.escape(name) + r":\s*(.*?)(?=\n\s*\n|\n\* |\Z)", summ, flags=re.S)
+        txt = (m.group(1).strip() if m else "?")
+        return [] if txt == "<none>" else [x.strip() for x in txt.splitlines() if x.strip()]
+    axioms = field("Axioms")
+    info = {"rc": p.returncode, "seconds": round(time.time() - t0, 1), "axioms": axioms,
+            "type_in_type": field("Constants/Inductives relying on type-in-type"),
+            "unsafe_fixpoints": field("Constants/Inductives relying on unsafe (co)fixpoints"),
+            "assumed_positivity": field("Inductives whose positivity is assumed")}
+    info["ok"] = (p.returncode == 0 and all(a in AXIOM_ALLOW for a in axioms) and not info["type_in_type"] and not info["unsafe_fixpoints"] and not info["assumed_positivity"]
+                  and "?" not in axioms)
+    return info
 
 
 FORBIDDEN = re.compile(r"\b(Admitted|admit|Axiom|Axioms|Parameter|Parameters|Conjecture|Admit Obligations|bypass_check|type-in-type|impredicative-set)\b|Unset\s+Guard|Unset\s+Positivity|Unset\s+Universe")
@@ -344,6 +371,8 @@ def write_evidence(ctx, build, coverage, violations, assumptions=None):
         "theorems": build.get("theorems", []),
         "translators": {k: (v.get("meta", {}).get("spans") if v.get("ok") else v.get("error")) for k, v in build.get("translators", {}).items()},
     }
+    if build.get("coqchk"):
+        cov["coqchk"] = build["coqchk"]
     cov.update(coverage)
     ev = {
         "property_id": ctx.prop,
